@@ -110,6 +110,32 @@ def ast_depth(text, filename=None):
     return depth
 
 
+def expr_depth(text, filename=None):
+    """deepest nesting of expression nodes inside one statement (statements do not count: an elif chain or nested
+    blocks are not expression nesting); None when the text does not parse"""
+    try:
+        with warnings.catch_warnings():
+            warnings.simplefilter('ignore')
+            tree = ast.parse(text, filename or '<string>')
+    except BaseException:
+        return None
+    best = 0
+    stack = [(tree, 0)]
+    while stack:
+        node, d = stack.pop()
+        for ch in ast.iter_child_nodes(node):
+            if isinstance(ch, ast.expr):
+                nd = d + 1
+                if nd > best:
+                    best = nd
+            elif isinstance(ch, (ast.stmt, ast.excepthandler, ast.match_case)):
+                nd = 0
+            else:
+                nd = d          # comprehension, arguments, keyword, withitem, slices ...: part of the expression
+            stack.append((ch, nd))
+    return best
+
+
 def splitlines_chars(text):
     return sorted(set(SPLITLINES_ONLY[c] for c in text if c in SPLITLINES_ONLY))
 
@@ -1063,11 +1089,158 @@ def growth_cases(sizes, budget_probes):
     return out
 
 
+DUNDER_USES = {
+    '__call__': ['k = K()\nr = k(1)\nr.zz\n', 'K()(1).zz\n', 'K()(1)(2).zz\n', 'K().__call__(1).zz\n', 'K.__call__.zz\n', 'K().__call__.zz\n'],
+    '__init__': ['K(1).zz\n', 'k = K(1)\nk.zz\nk.made.zz\n', 'K.__init__.zz\n', 'K(1).__init__(2).zz\n'],
+    '__enter__': ['with K() as e:\n    e.zz\n', 'with K() as e, e as f:\n    f.zz\n', 'K().__enter__().zz\n'],
+    '__getitem__': ['K()[0].zz\n', 'K()[0][1].zz\n', 'for i in K():\n    i.zz\n', 'a, b = K()\na.zz\n', 'K().__getitem__(0).zz\n'],
+    '__iter__': ['for i in K():\n    i.zz\n', 'r = [j for j in K()]\nr.zz\n', 'a, *b = K()\nb.zz\n', 'K().__iter__().zz\n',
+                 'next(iter(K())).zz\n'],
+    '__get__': ['class H:\n    d = K()\nH.d.zz\nH().d.zz\n'],
+    '__getattr__': ['K().anything.zz\n', 'K().anything(1).zz\n'],
+}
+
+DUNDER_SIG = {'__call__': 'self, *a', '__init__': 'self, *a', '__enter__': 'self', '__getitem__': 'self, i', '__iter__': 'self',
+              '__get__': 'self, o, t=None', '__getattr__': 'self, n'}
+
+
+def _dunder_forms(d):
+    """[(label, prelude, class body lines)]: the ways a class can come by the special method d"""
+    sig = DUNDER_SIG[d]
+    body1 = 'self.made = R()\n        return self' if d == '__init__' else 'return R()'
+    body2 = 'self.made = ""\n        return None' if d == '__init__' else 'return ""'
+    df = lambda ind, body: '%sdef %s(%s):\n%s    %s\n' % (ind, d, sig, ind, body.replace('\n        ', '\n' + ind + '    '))
+    F = []
+    F.append(('def', '', df('    ', body1)))
+    F.append(('two-branches', '', '    if c:\n' + df('        ', body1) + '    else:\n' + df('        ', body2)))
+    F.append(('three-branches', '', '    if c:\n' + df('        ', body1) + '    elif d:\n' + df('        ', body2) +
+              '    else:\n        %s = None\n' % d))
+    F.append(('try-except', '', '    try:\n' + df('        ', body1) + '    except NameError:\n' + df('        ', body2)))
+    F.append(('maybe-bound', '', '    if c:\n' + df('        ', body1)))
+    F.append(('loop-bound', '', '    for q in r:\n' + df('        ', body1)))
+    F.append(('rebound-by-assignment', 'def other(%s):\n    return R()\n' % sig, df('    ', body2) + '    %s = other\n' % d))
+    F.append(('assigned-function', 'def other(%s):\n    return R()\n' % sig, '    %s = other\n' % d))
+    F.append(('inherited', 'class Base:\n' + df('    ', body1), '    pass\n'))
+    F.append(('inherited-two-branches', 'class Base:\n    if c:\n' + df('        ', body1) + '    else:\n' + df('        ', body2), '    pass\n'))
+    F.append(('inherited-from-composite-base', 'if c:\n    class Base:\n' + df('        ', body1) + 'else:\n    class Base:\n' +
+              df('        ', body2), '    pass\n'))
+    F.append(('property', '', '    @property\n    def %s(self):\n        return R\n' % d))
+    F.append(('property-two-branches', '', '    if c:\n        @property\n        def %s(self):\n            return R\n    else:\n'
+              '        %s = property(lambda self: R)\n' % (d, d)))
+    F.append(('lambda', '', '    %s = lambda %s: R()\n' % (d, sig)))
+    F.append(('class', '', '    %s = R\n' % d))
+    F.append(('nested-class', '', '    class %s:\n        x = 1\n' % d))
+    F.append(('none', '', '    %s = None\n' % d))
+    F.append(('constant', '', '    %s = "text"\n' % d))
+    F.append(('instance', '', '    %s = R()\n' % d))
+    F.append(('builtin', '', '    %s = len\n' % d))
+    F.append(('builtin-type', '', '    %s = str\n' % d))
+    F.append(('staticmethod', '', '    @staticmethod\n    def %s(*a):\n        return R()\n' % d))
+    F.append(('classmethod', '', '    @classmethod\n    def %s(cls, *a):\n        return cls\n' % d))
+    F.append(('self-attribute', '', '    def setup(self):\n        self.%s = lambda *a: R()\n' % d))
+    F.append(('self-attribute-two-values', '', '    def setup(self):\n        self.%s = R\n        self.%s = None\n' % (d, d)))
+    F.append(('returns-self', '', '    def %s(%s):\n        return self\n' % (d, sig)))
+    F.append(('calls-itself', '', '    def %s(%s):\n        return self.%s()\n' % (d, sig, d)))
+    F.append(('imported', 'from m import helper\n', '    %s = helper\n' % d))
+    F.append(('imported-as', 'from m import helper as %s_\n' % d.strip('_'), '    %s = %s_\n' % (d, d.strip('_'))))
+    F.append(('unknown-name', '', '    %s = nowhere\n' % d))
+    F.append(('deleted', '', df('    ', body1) + '    del %s\n' % d))
+    return F
+
+
+CALLABLES = [('function', 'def f():\n    return R()\n', 'f'), ('function-no-return', 'def f():\n    pass\n', 'f'),
+             ('function-two-returns', 'def f():\n    if c:\n        return R()\n    return ""\n', 'f'),
+             ('lambda', 'f = lambda: R()\n', 'f'), ('class', '', 'R'), ('instance', 'f = R()\n', 'f'),
+             ('callable-instance', 'class Q:\n    def __call__(self):\n        return R()\nf = Q()\n', 'f'),
+             ('none', 'f = None\n', 'f'), ('string', 'f = "s"\n', 'f'), ('number', 'f = 1\n', 'f'), ('list', 'f = [R]\n', 'f'),
+             ('builtin', '', 'len'), ('builtin-type', '', 'dict'), ('module', 'import os\n', 'os'),
+             ('module-function', 'import os\n', 'os.getcwd'), ('project-module', 'import m\n', 'm'),
+             ('project-module-function', 'import m\n', 'm.helper'), ('project-module-class', 'import m\n', 'm.Helper'),
+             ('project-module-instance', 'import m\n', 'm.inst'), ('project-module-composite', 'import m\n', 'm.either'),
+             ('bound-method', 'f = R().meth\n', 'f'), ('unbound-method', '', 'R.meth'), ('property-object', '', 'R.prop'),
+             ('call-result', 'def g():\n    return R\n', 'g()'), ('unknown', '', 'nowhere'), ('runtime-instance', 'import sys\n', 'sys.stdout'),
+             ('runtime-method', '', '"".join'), ('partial', 'import functools\nf = functools.partial(R)\n', 'f'),
+             ('type-call', '', 'type(R())'), ('super', '', 'super')]
+
+CALL_HELPER_MODULE = ('class Helper:\n    def __call__(self):\n        return self\n    attr = 1\n'
+                      'def helper(*a):\n    return Helper()\ninst = Helper()\nif c:\n    either = helper\nelse:\n    either = Helper\n')
+CALL_PRELUDE = 'class R:\n    ra = 1\n    def meth(self):\n        return self\n    @property\n    def prop(self):\n        return self\n'
+
+
+def call_cases():
+    """"call of everything": instances whose special methods are bound in every odd way, calls of names bound to
+    different kinds of values on different branches, of module attributes, of runtime objects, of call results -
+    each followed by attribute completion / go-to-definition on the result (every (line, col) is tried)"""
+    out = []
+    files = {'m.py': CALL_HELPER_MODULE}
+    for d in sorted(DUNDER_USES):
+        for label, prelude, body in _dunder_forms(d):
+            uses = ''.join(DUNDER_USES[d])
+            inner = ''
+            if d == '__call__':
+                inner = '    def twice(self):\n        return self("x").zz\n'
+            text = CALL_PRELUDE + prelude + 'class K(%s):\n' % ('Base' if 'Base' in prelude else 'object') + body + inner + uses
+            out.append(_case('calls:%s:%s' % (d, label), text, files=files, positions='tokens:%d' % (len(Lines(CALL_PRELUDE)) - 1)))
+    # names bound to two different kinds of values
+    for i, (la, pa, ea) in enumerate(CALLABLES):
+        # alone
+        text = CALL_PRELUDE + pa + 'r = %s()\nr.zz\n%s().zz\n%s()().zz\n%s().ra.zz\n' % (ea, ea, ea, ea)
+        out.append(_case('calls:single:%s' % la, text, files=files))
+        for lb, pb, eb in CALLABLES[i + 1:]:
+            text = (CALL_PRELUDE + pa + pb + 'if c:\n    h = %s\nelse:\n    h = %s\nr = h()\nr.zz\nh().zz\nh()().zz\n' % (ea, eb))
+            out.append(_case('calls:either:%s|%s' % (la, lb), text, files=files,
+                             positions='tail:5'))
+    # three-way and loop-carried
+    out.append(_case('calls:three-way', CALL_PRELUDE + 'def f():\n    return R()\ntry:\n    h = f\nexcept E:\n    h = R\nelse:\n    h = None\n'
+                                        'h().zz\nfor h in [f, R]:\n    h().zz\nwhile c:\n    h = h()\nh().zz\n', files=files))
+    out.append(_case('calls:decorated', CALL_PRELUDE + 'def deco(fn):\n    return R()\n@deco\ndef f():\n    pass\nf().zz\nf.zz\n'
+                                        '@R\nclass D:\n    pass\nD().zz\n@deco\nclass E:\n    def __call__(self):\n        return 1\nE()().zz\n', files=files))
+    out.append(_case('calls:star-imported', 'from m import *\nhelper().zz\nhelper()().zz\ninst().zz\neither().zz\neither()().zz\nHelper()().attr.zz\n',
+                     files=files))
+    return out
+
+
+def chain_cases(alias=(50, 150, 300, 600), elif_n=(100, 400, 1500), nest=(4, 8, 10)):
+    """growth shapes that are chains rather than sequences: alias chains (a1 = a0; a2 = a1; ...), elif chains, attribute-assignment
+    chains through instances, call chains, nested loops"""
+    out = []
+    for n in alias:
+        t = 'a0 = "s"\n' + ''.join('a%d = a%d\n' % (i, i - 1) for i in range(1, n + 1)) + 'a%d.zz\n' % n
+        w = len('a%d' % n)
+        out.append(_case('chain:alias:%d' % n, t, positions=[(n + 2, w + 1), (n + 2, w + 3), (n + 2, w), (n // 2, 1)]))
+        t = 'def f0():\n    return ""\n' + ''.join('def f%d():\n    return f%d()\n' % (i, i - 1) for i in range(1, n + 1)) + 'f%d().zz\n' % n
+        w = len('f%d()' % n)
+        out.append(_case('chain:call:%d' % n, t, positions=[(2 * n + 3, w + 1), (2 * n + 3, w + 3), (2 * n + 3, w - 2)]))
+        t = ('class C:\n    pass\nc0 = C()\n' + ''.join('c%d = C()\nc%d.p = c%d\n' % (i, i, i - 1) for i in range(1, min(n, 150) + 1)) +
+             'c%d%s.zz\n' % (min(n, 150), '.p' * 3))
+        if n <= 150:
+            out.append(_case('chain:attribute:%d' % n, t, positions=[(2 * n + 4, len('c%d' % n) + 1), (2 * n + 4, len('c%d.p.p.p' % n) + 1)]))
+        t = 'import os\nm0 = os\n' + ''.join('m%d = m%d.path\n' % (i, i - 1) if i == 1 else 'm%d = m%d\n' % (i, i - 1) for i in range(1, n + 1)) + 'm%d.zz\n' % n
+        out.append(_case('chain:alias-of-module:%d' % n, t, positions=[(n + 3, len('m%d' % n) + 1), (n + 3, len('m%d' % n))]))
+    for n in elif_n:
+        t = 'if c0:\n    v = 0\n' + ''.join('elif c%d:\n    v = %d\n' % (i, i) for i in range(1, n)) + 'else:\n    v = None\nv\nv.zz\n'
+        rows = 2 * n + 4
+        out.append(_case('chain:elif:%d' % n, t, positions=[(rows - 1, 1), (rows, 2), (rows, 4), (n, 6), (1, 4)]))
+    for n in nest:
+        for kind, head in (('for', 'for v%d in r:'), ('while', 'while v%d:'), ('mixed', None)):
+            L = ['v0 = r\n']
+            for i in range(n):
+                h = head if head else ('for v%d in r:', 'while v%d:', 'if v%d:', 'with v%d:')[i % 4]
+                L.append('    ' * i + h % i + '\n')
+                L.append('    ' * (i + 1) + 'v%d = v%d\n' % (i + 1, i))
+            t = ''.join(L) + 'v%d\nv%d.zz\n' % (n, n)
+            rows = 2 * n + 3
+            w = len('v%d' % n)
+            out.append(_case('chain:nested-loops:%s:%d' % (kind, n), t,
+                             positions=[(rows - 1, w), (rows, w + 1), (rows, w + 3), (2 * n + 1, 4 * n + 2), (2, 3)]))
+    return out
+
+
 _FAMILY_CACHE = {}
 
 
 def family(name, tier='quick'):
-    key = (name, tier if name in ('flat', 'chars', 'growth') else '')
+    key = (name, tier if name in ('flat', 'chars', 'growth', 'chains') else '')
     if key not in _FAMILY_CACHE:
         _FAMILY_CACHE[key] = _family(name, tier)
     return _FAMILY_CACHE[key]
@@ -1082,6 +1255,26 @@ def _family(name, tier='quick'):
         return del_cases()
     if name == 'chars':
         return char_cases(big=tier != 'quick')
+    if name == 'calls':
+        out = call_cases()
+        for c in out:
+            if isinstance(c['positions'], str) and c['positions'].startswith('tail:'):
+                # only the last rows (the prelude is the same in every text and is tried in full by the 'single' cases)
+                k = int(c['positions'].split(':')[1])
+                L = Lines(c['text'])
+                c['positions'] = [(r, col) for r in range(len(L) - k, len(L) + 1) for col in range(len(L.lines[r - 1]) + 1)]
+            elif isinstance(c['positions'], str) and c['positions'].startswith('tokens:'):
+                # token boundaries (ends and middles of names, after dots and brackets, line ends) below the common prelude
+                k = int(c['positions'].split(':')[1])
+                by = classify_positions(c['text'])
+                ps = [p for cl in ('name-end', 'name-inside', 'after-dot', 'after-open-bracket', 'line-end', 'keyword-end')
+                      for p in by[cl] if p[0] > k]
+                c['positions'] = sorted(set(ps))
+        return out
+    if name == 'chains':
+        if tier == 'quick':
+            return chain_cases()
+        return chain_cases(alias=(50, 150, 300, 600, 1200), elif_n=(100, 400, 1500), nest=(4, 8, 10, 12))
     if name == 'growth':
         if tier == 'quick':
             # the probes that need the whole 9*B line events (minutes of CPU each) run in the thorough tier only
